@@ -13,6 +13,77 @@ mod v1;
 #[path = "/repo/examples/upgradeable/v2/src/contract.rs"]
 mod v2;
 
+/// The pausable example's entry points declared the other ways the macros have to cope with: the environment
+/// parameter spelled with a path or taken by value, the guarded functions being methods of a trait implementation.
+/// Driven through the example's generated client.
+mod counterlab {
+    use soroban_sdk::{contract, contractimpl, contracttype, Address};
+    use stellar_contract_utils::pausable::{self as pausable, Pausable};
+    use stellar_macros::{when_not_paused, when_paused};
+
+    #[contracttype]
+    pub enum DataKey {
+        Owner,
+        Counter,
+    }
+
+    #[contract]
+    pub struct CounterLab;
+
+    pub trait Counting {
+        fn increment(e: &soroban_sdk::Env) -> i32;
+        fn emergency_reset(e: soroban_sdk::Env);
+    }
+
+    #[contractimpl]
+    impl CounterLab {
+        pub fn __constructor(e: &soroban_sdk::Env, owner: Address) {
+            e.storage().instance().set(&DataKey::Owner, &owner);
+            e.storage().instance().set(&DataKey::Counter, &0);
+        }
+    }
+
+    #[contractimpl]
+    impl Counting for CounterLab {
+        #[when_not_paused]
+        fn increment(e: &soroban_sdk::Env) -> i32 {
+            let counter: i32 = e.storage().instance().get(&DataKey::Counter).expect("counter should be set");
+            e.storage().instance().set(&DataKey::Counter, &(counter + 1));
+            counter + 1
+        }
+
+        #[when_paused]
+        fn emergency_reset(e: soroban_sdk::Env) {
+            e.storage().instance().set(&DataKey::Counter, &0);
+        }
+    }
+
+    #[contractimpl]
+    impl Pausable for CounterLab {
+        fn paused(e: &soroban_sdk::Env) -> bool {
+            pausable::paused(e)
+        }
+
+        fn pause(e: &soroban_sdk::Env, caller: Address) {
+            caller.require_auth();
+            let owner: Address = e.storage().instance().get(&DataKey::Owner).expect("owner should be set");
+            if owner != caller {
+                panic!("not the owner");
+            }
+            pausable::pause(e);
+        }
+
+        fn unpause(e: &soroban_sdk::Env, caller: Address) {
+            caller.require_auth();
+            let owner: Address = e.storage().instance().get(&DataKey::Owner).expect("owner should be set");
+            if owner != caller {
+                panic!("not the owner");
+            }
+            pausable::unpause(e);
+        }
+    }
+}
+
 const V2_WASM: &str = "/repo/examples/upgradeable/testdata/upgradeable_v2_example.wasm";
 
 struct Sys {
@@ -22,14 +93,16 @@ struct Sys {
     flavour: String,
     is_v2: bool,
     hash: Option<BytesN<32>>,
+    lab: bool,
 }
 
 impl Sys {
-    fn new(flavour: &str) -> Sys {
+    fn new(flavour: &str, lab: bool) -> Sys {
         let e = new_env(&LedgerCfg::default());
         let names = Names::new(&e, &["a", "b"]);
         let a = names.get("a");
         let (c, hash) = match flavour {
+            "counter" if lab => (e.register(counterlab::CounterLab, (a,)), None),
             "counter" => (e.register(counter::ExampleContract, (a,)), None),
             "upgrade" => {
                 let wasm = std::fs::read(V2_WASM).expect("prebuilt v2 wasm");
@@ -48,7 +121,7 @@ impl Sys {
         };
         let is_v2 = flavour == "upgrade2";
         let flavour_s = flavour.to_string();
-        Sys { e, names, c, flavour: flavour_s, is_v2, hash }
+        Sys { e, names, c, flavour: flavour_s, is_v2, hash, lab }
     }
 
     fn obs(&self) -> Value {
@@ -121,7 +194,7 @@ impl Sys {
     }
 
     fn reset_event(&self) -> Value {
-        json!({"op": {"op": "reset", "flavour": self.flavour, "owner": "a", "caller": "none", "auth": []},
+        json!({"op": {"op": "reset", "flavour": self.flavour, "lab": self.lab, "owner": "a", "caller": "none", "auth": []},
                "res": "ok", "err": 0, "ret": 0, "obs": self.obs()})
     }
 }
@@ -130,9 +203,10 @@ fn main() {
     match cli() {
         Mode::Exec { input, output } => {
             let mut t = Trace::create(&output);
-            for b in read_behaviours(&input) {
+            for (bi, b) in read_behaviours(&input).iter().enumerate() {
                 let fl = b.cfg.get("flavour").and_then(|v| v.as_str()).unwrap_or("counter").to_string();
-                let mut sys = Sys::new(&fl);
+                let lab = b.cfg.get("lab").and_then(|v| v.as_bool()).unwrap_or(bi % 2 == 1);
+                let mut sys = Sys::new(&fl, lab);
                 t.reset(sys.reset_event());
                 for op in &b.ops {
                     if let Some(ev) = sys.step(op) {
@@ -147,7 +221,7 @@ fn main() {
             let mut r = StdRng::seed_from_u64(seed);
             for run in 0..runs {
                 let fl = match run % 4 { 0 | 2 => "counter", 1 => "upgrade", _ => "upgrade2" };
-                let mut sys = Sys::new(fl);
+                let mut sys = Sys::new(fl, run % 4 == 2);
                 t.reset(sys.reset_event());
                 for _ in 0..len {
                     time_passes(&sys.e, &mut r, 3000);
